@@ -62,9 +62,10 @@ def main():
             shutil.rmtree(dst)
     else:
         names = sys.argv[2:] or sorted(os.path.basename(p) for p in glob.glob(os.path.join(VERIF, "benign", "*")))
-        for n in names:
-            m = evaluate(os.path.join(VERIF, "benign", n), False)
-            print("%-8s false_alarms=%s broken=%s" % (n, m.get("false_alarms"), m.get("analysis_broken")))
+        from concurrent.futures import ThreadPoolExecutor
+        with ThreadPoolExecutor(max_workers=6) as ex:
+            for n, m in zip(names, ex.map(lambda n: evaluate(os.path.join(VERIF, "benign", n), False), names)):
+                print("%-8s false_alarms=%s broken=%s" % (n, m.get("false_alarms"), m.get("analysis_broken")))
 
 
 if __name__ == "__main__":
